@@ -16,7 +16,7 @@
   OBLIGATIONS (checked by the harness):
     select_only_id select_marks_wf select_segments
     remove_exact remove_attr_exact remove_wellnested
-    copy_id_and_buffer
+    copy_id_and_buffer copy_buffer_segments cut_exact
     run_ops_change_only_selected unwrap_changes_only_selected empty_changes_only_selected
     prepend_changes_only_selected append_changes_only_selected rename_changes_only_selected
     attr_changes_only_selected
@@ -24,6 +24,7 @@
     after_preserves_wellnested unwrap_preserves_wellnested empty_preserves_wellnested
     prepend_preserves_wellnested append_preserves_wellnested rename_preserves_wellnested
     attr_preserves_wellnested cut_preserves_wellnested map_preserves_wellnested
+    filter_preserves_wellnested
     chain_wellnested_partial buffers_balanced before_after_any_stream
     invert_wrap_breaks_nesting attr_wrap_emits_empty_wrapper
     select_only_id_ok filler_unnamed_unchanged filler_unnamed_id
@@ -32,7 +33,7 @@
     filler_fills_textarea_partial filler_no_passwords
     filler_option_children_moved filler_textarea_none_erased
 -/
-import Genshi.Lemmas.TfSegs
+import Genshi.Lemmas.TfSegs2
 import Genshi.Lemmas.TfChains
 import Genshi.Lemmas.TfFill
 namespace Genshi.Props.C20
@@ -109,6 +110,19 @@ theorem copy_id_and_buffer (s : MStream) :
     (tight false s = true → ∀ buf, copyBuf true .idle buf s = buf ++ marked s) ∧
     (∀ rs t, tight false (selectGo 0 rs t) = true) :=
   ⟨copy_id s, fun h buf => (copyBuf_spec s).1 buf h, fun rs t => by simpa using selectGo_tight rs t 0⟩
+
+/-- The buffer of `copy(buffer, accumulate)` after the run, both modes: with `accumulate` it
+    grows by every contiguous selection, without it it is the last contiguous selection (or
+    what it held before when nothing was selected). -/
+theorem copy_buffer_segments (acc : Bool) (segs : List Seg) (h : SegsOk segs) (buf : List MEv) :
+    copyBuf acc .idle buf (flatSegs segs) = segs.foldl (bufStep acc) buf := copyBuf_segs acc segs h buf
+
+/-- cut deletes exactly the selections (no attribute selection among them): it succeeds, and
+    the events it leaves are exactly those of the unselected segments (the BREAK pseudo-events
+    it inserts are dropped by `_unmark`). -/
+theorem cut_exact (acc : Bool) (segs : List Seg) (h : SegsOk segs) (hna : NoAttrRun segs) :
+    ∃ out, cut acc (flatSegs segs) = some out ∧ unmark out = unmark (flatSegs (keepSegs segs)) :=
+  (cut_segs_unmark acc segs h hna).1 false []
 
 /-! ## the documented effect of each operation, and nothing else -/
 
@@ -227,23 +241,33 @@ theorem map_preserves_wellnested (all : Bool) (p r : Str) (n : Nat) (s : MStream
   ⟨by unfold WellNested mapBang; rw [map_balance (mapBangEv_effPres all)]; exact hwn,
    by unfold WellNested substitute; rw [map_balance (substEv_effPres p r n)]; exact hwn⟩
 
+/-- filter(f) for any stream filter `f` that keeps balanced input balanced (`FOk f`): each
+    contiguous selection is replaced by `f` of it, marked OUTSIDE — well nested and `Good`. -/
+theorem filter_preserves_wellnested (f : List MEv → List MEv) (hf : FOk f) {s : MStream} (hg : Good s)
+    (hwn : WellNested (unmark s)) :
+    WellNested (unmark (filterGo f .idle [] s)) ∧ Good (filterGo f .idle [] s) :=
+  ⟨by unfold WellNested; rw [filter_balance hf hg]; exact hwn, filter_good hf hg⟩
+
 /-! ## chains -/
 
 /-
-  Full statement (kept visible): for every well-nested stream `s` and every chain `ops` of
-  Transformer operations in which, after an `invert()`, a `select()`/`end()` comes before any
-  operation that deletes, replaces, wraps or copies contiguous selections,
-  `transform ops s = some out → WellNested out`.
+  `chain_wellnested`: for every well-nested stream `s` and every chain `ops` of Transformer
+  operations in which, after an `invert()`, a `select()`/`end()` comes before any operation that
+  deletes, replaces, wraps, copies or filters contiguous selections (the documented
+  precondition, shown necessary by `invert_wrap_breaks_nesting`), and whose literal event-stream
+  contents are balanced: `transform ops s = some out → WellNested out`.
 
-  Proved part (`_partial`): exactly that, for chains without `filter(f)` (an arbitrary user
-  filter; the model drives two instances) and with balanced literal event streams as content.
-  The chain may contain any number of selects, `end()`, `invert()`, `buffer()`, `copy`, `cut`,
-  wrap, replace, before, after, prepend, append, rename, attr, empty, unwrap, remove, map,
-  substitute in any order, and may inject strings, event streams and the buffers filled by
-  earlier `copy`/`cut` operations of the same chain.  After `invert()` and until the next
-  select/end: everything except remove / replace / wrap / cut / copy / filter.
-  (The model composes the chain stage-wise; the driver answers `unmodelled` for the chains in
-  which the lazy interleaving of the real generators is observable.)
+  By induction over the chain with the invariant "well nested; `Good` — or, after `invert()`, free
+  of ENTER/EXIT marks —; every buffer holds balanced content".  The chain may contain any number
+  of selects, `end()`, `invert()`, `buffer()`, `copy`, `cut`, wrap, replace, before, after,
+  prepend, append, rename, attr, empty, unwrap, remove, map, substitute, filter in any order, and
+  may inject strings, event streams and the buffers filled by earlier `copy`/`cut` operations.
+
+  `_partial` for two reasons that are not hypotheses of the statement: `filter(f)` is covered for
+  filters that keep balanced input balanced (`FOk`; lemmas `filter_balance`, `filter_good` are
+  general, the model's `Op.filter` carries the two filters the correspondence drives), and the
+  model composes the links of a chain stage-wise — the driver answers `unmodelled` for the
+  chains in which the lazy interleaving of the real generators is observable.
 -/
 theorem chain_wellnested_partial (ops : List Op) (s : Stream) (hs : WellNested s)
     (hadm : Admissible true ops) (hsel : chainSelOk ops [] (markAll s) = true)
